@@ -4,6 +4,7 @@ CONSTANTS
   Brushes = { "d2", "d3" }
   Levels <- ThreeLevels
   Variant = "paper"
+  DesignSet <- AllLevels
 INVARIANT TypeOK
 INVARIANT NoConflict
 INVARIANT Progress
